@@ -340,11 +340,10 @@ func (s *solo) peerReturn(a *peerA) {
 		spec.cexps = []*connExport{nil}
 		spec.content.Caps = []rpcbench.WDesc{{Kind: "senderHosted", ID: e.id}}
 		s.sendReturn(a, spec, true)
-		for _, b := range s.appBoots {
-			if b.pa == a || (b.copyOf != nil && b.copyOf.pa == a) {
-				s.handlePexp[b.h.ID] = e
-			}
-		}
+		// the application's bootstrap clients become references to this
+		// import once the Conn has processed the Return, i.e. when its
+		// Finish is seen (see onFinish)
+		a.bootExport = e
 		return
 	}
 	if a.fwdOf != nil {
